@@ -90,8 +90,14 @@ def step (s : Sess) (c : Cmd) : Sess × String × String :=
     let packed := if dflt then true else c.nat "packed" 1 != 0
     let ab := if dflt then 1 else c.nat "ab" 1
     let exp := if dflt then 1 else parseF32 ((c.str "exp").getD "1")
-    let (st, r, m) := DynamicPool.new size fixed packed ab freshByte m
-    let (sst, sp) := if c.fired > 0 then (Stat.errAlloc, none)
+    let triple : Triple := if dflt then .libc else .conf
+    -- the harness allocator refuses requests above 2^40 bytes ("absurd") without counting a refusal
+    let absurd := !dflt && size ≤ Spec.pageLimit && size + pageInfoSize > 2 ^ 40
+    let m := if absurd && c.sched.isEmpty then s.mem.begin [false, true] else m
+    let (st, r, m) := DynamicPool.new size fixed packed ab freshByte triple m
+    let m := if absurd && c.sched.isEmpty then { m with nrefused := 0 } else m
+    let (sst, sp) := if size > Spec.pageLimit then (Stat.errInvalidCapacity, none)
+                     else if c.fired > 0 then (Stat.errAlloc, none)
                      else (Stat.ok, some (Spec.DPool.init size fixed packed ab (List.replicate size freshByte)))
     let s' : Sess := { model := r, spec := sp, mem := m, exp, dflt }
     (s', lineS (fmtStat sst) s', lineM (fmtStat st) s')
